@@ -159,11 +159,6 @@ Proof.
     rewrite <- app_assoc. rewrite IH by assumption. rewrite <- app_assoc. reflexivity.
 Qed.
 
-Lemma first_char_tests c : first_char c ->
-  tag_ws c = false /\ (c =? 10) = false /\ (c =? 46) = false /\ (c =? 47) = false /\ is_digit c = false /\ (c =? 62) = false /\
-  (c =? 38) = false /\ (c =? 60) = true \/ True.
-Proof. intros. right. exact I. Qed.
-
 (* one token *)
 Lemma scan_token : forall t rest, nf_token t ->
   (is_string t = true -> lt_or_nil rest) ->
